@@ -161,6 +161,40 @@ def judge_history(acc, f, part):
         acc.outcome('history_ok')
 
 
+def judge_derived(acc, f, part):
+    """objects that take their format from a wide object (like=, template, indexing, deepcopy, like()): indicator and storage as for direct sizing"""
+    from ..common import Fxp as _F
+    c = f.hi - 1
+    case = {'part': part, 'derived': True, 'fmt': list(f)}
+    try:
+        w = Fxp(np.array([c, f.lo, 1], dtype=object), f.signed, f.n_word, f.n_frac, raw=True)
+        ws = Fxp(c, f.signed, f.n_word, f.n_frac, raw=True)
+        ders = {'like=': Fxp(c, like=ws, raw=True), 'like=None': Fxp(None, like=ws), 'template=': Fxp(c, template=ws, raw=True), 'w[0]': w[0], 'w[0:2]': w[0:2],
+                'deepcopy': ws.deepcopy(), '~ws': ~ws, 'ws&1': ws & 1}
+        if f.n_frac <= 40:
+            ders['like()'] = Fxp(0, True, 8, 0).like(ws)
+        _F.template = ws
+        try:
+            ders['Fxp.template'] = Fxp(c, raw=True)
+        finally:
+            _F.template = None
+    except Exception as e:
+        acc.violation('exception', case, '%s: deriving objects raised %r' % (f.dtype, e), {'part': part, 'aspect': 'derived'})
+        return
+    for name, o in ders.items():
+        acc.evaluations += 1
+        acc.transitions += 1
+        acc.nontrivial += 1
+        ok_ind = bool(o.status.get('extended_prec')) == (o.n_word >= 64)
+        ok_fmt = (o.n_word, o.signed) == (f.n_word, f.signed)
+        ok_sto = (getattr(o.val, 'dtype', None) == object) == (o.n_word >= 64) if isinstance(o.val, np.ndarray) else True
+        if not (ok_ind and ok_fmt and ok_sto):
+            acc.violation('indicator', dict(case, how=name), '%s: object derived by %s: extended_prec=%r, format %s, storage %s'
+                          % (f.dtype, name, o.status.get('extended_prec'), o.dtype, getattr(o.val, 'dtype', type(o.val))), {'part': part, 'aspect': 'derived', 'how': name})
+        else:
+            acc.outcome('derived_ok')
+
+
 def bounds(tier, seed):
     return {'interleaved': 'two shards visiting signed and unsigned formats of every word length alternately (either signedness first), forward then backward',
             'formats': 'n_word in %s x n_frac {0,1,n/2,n-1,n} x signed/unsigned x {saturate, wrap}' % (WORDS,),
@@ -212,6 +246,7 @@ def run_shard(sh):
                 judge_code(acc, f, ovf, c, 'hex_raw', 'W')
         judge_object(acc, f, inr, 'W')
         judge_history(acc, f, 'H')
+        judge_derived(acc, f, 'H')
     return acc
 
 
@@ -219,6 +254,9 @@ def replay(case):
     reset_class_state()
     acc = Acc()
     f = Fmt(*case['fmt'])
+    if case.get('derived'):
+        judge_derived(acc, f, case['part'])
+        return [v for v in acc.violations if v['case'].get('how') == case.get('how')]
     if 'resize_to' in case:
         judge_history(acc, f, case['part'])
         return [v for v in acc.violations if v['case'].get('resize_to') == case['resize_to']]
